@@ -416,6 +416,29 @@ func (r *run) forgeQC(b *hotstuff.Block) hotstuff.QuorumCert {
 	// certificates assembled only from what the adversary can really produce: its own keys (possibly
 	// repeated), votes it has seen, a relabelled genuine certificate
 	by := r.byzIDs()
+	if r.rng.Intn(3) == 0 {
+		// field combinations honest code never produces: signature from {none, a genuine certificate of this or another
+		// block}, view label from {0, the block's view, another view}, hash from {the block, genesis}
+		var sig hotstuff.QuorumSignature
+		if len(r.qcPool) > 0 && r.rng.Intn(3) > 0 {
+			cands := r.qcPool
+			if r.rng.Intn(2) == 0 { // prefer a certificate of this very block
+				for _, qc := range r.qcPool {
+					if qc.BlockHash() == b.Hash() && qc.Signature() != nil {
+						cands = []hotstuff.QuorumCert{qc}
+						break
+					}
+				}
+			}
+			sig = cands[r.rng.Intn(len(cands))].Signature()
+		}
+		view := []hotstuff.View{0, b.View(), b.View() + hotstuff.View(1+r.rng.Intn(3)), hotstuff.View(r.rng.Intn(int(b.View()) + 1))}[r.rng.Intn(4)]
+		hash := b.Hash()
+		if r.rng.Intn(6) == 0 {
+			hash = hotstuff.GetGenesis().Hash()
+		}
+		return hotstuff.NewQuorumCert(sig, view, hash)
+	}
 	switch r.rng.Intn(4) {
 	case 0: // own signatures only, repeated to look like a quorum
 		var sigs []*crypto.ECDSASignature
@@ -471,8 +494,11 @@ func (r *run) forgeTC(view hotstuff.View) hotstuff.TimeoutCert {
 	by := r.byzIDs()
 	switch r.rng.Intn(3) {
 	case 0:
-		if len(r.tcPool) > 0 { // genuine signatures, other view
+		if len(r.tcPool) > 0 { // genuine signatures, other view (mostly the newest certificate: the one replicas saw last)
 			tc := r.tcPool[r.rng.Intn(len(r.tcPool))]
+			if r.rng.Intn(3) > 0 {
+				tc = r.tcPool[len(r.tcPool)-1]
+			}
 			if tc.View() != view && tc.Signature() != nil {
 				return hotstuff.NewTimeoutCert(tc.Signature(), view)
 			}
@@ -571,7 +597,36 @@ func (r *run) adversary() {
 	if r.coopMaybe() {
 		return
 	}
-	switch a := r.rng.Intn(10); {
+	switch a := r.rng.Intn(11); {
+	case a == 10: // prime, then replay altered: a genuine certificate is shown to a replica, directly followed by a copy with one field changed
+		x := hon[r.rng.Intn(len(hon))]
+		gen, alt := hotstuff.NewSyncInfo(), hotstuff.NewSyncInfo()
+		switch {
+		case len(r.tcPool) > 0 && r.rng.Intn(2) == 0:
+			tc := r.tcPool[len(r.tcPool)-1-r.rng.Intn(min(len(r.tcPool), 2))]
+			if tc.Signature() == nil {
+				return
+			}
+			gen.SetTC(tc)
+			alt.SetTC(hotstuff.NewTimeoutCert(tc.Signature(), max(tc.View(), x.VS.View())+hotstuff.View(1+r.rng.Intn(6))))
+		case len(r.qcPool) > 0:
+			qc := r.qcPool[len(r.qcPool)-1-r.rng.Intn(min(len(r.qcPool), 2))]
+			if qc.Signature() == nil {
+				return
+			}
+			gen.SetQC(qc)
+			if ob := r.someBlock(); r.rng.Intn(2) == 0 && ob.Hash() != qc.BlockHash() {
+				alt.SetQC(hotstuff.NewQuorumCert(qc.Signature(), ob.View(), ob.Hash())) // same signatures, another block
+			} else {
+				alt.SetQC(hotstuff.NewQuorumCert(qc.Signature(), max(qc.View(), x.VS.View())+hotstuff.View(1+r.rng.Intn(6)), qc.BlockHash()))
+			}
+		default:
+			return
+		}
+		for k, si := range []hotstuff.SyncInfo{gen, alt} {
+			r.logByz([]string{"prime", "replay-altered"}[k], id, []envelope{{from: id, to: x.ID, msg: hotstuff.NewViewMsg{ID: id, SyncInfo: si, FromNetwork: true}}})
+			r.deliverIdx(len(r.net) - 1)
+		}
 	case a < 4: // proposals
 		view := hotstuff.View(max(1, mv+r.rng.Intn(3)-1))
 		// prefer views the adversary leads
@@ -700,6 +755,26 @@ func (r *run) adversary() {
 }
 
 // ---- scheduler ------------------------------------------------------------------------------------
+// timeoutWave: the view timers of the given replicas fire one after the other (timers are roughly synchronised), and each
+// replica has received the timeouts of those before it when its own timer fires -- the last one's own timeout completes
+// the quorum.
+func (r *run) timeoutWave(members []*hx.Node) {
+	order := r.rng.Perm(len(members))
+	for _, oi := range order {
+		y := members[oi]
+		for i := 0; i < len(r.net); {
+			e := r.net[i]
+			if t, ok := e.msg.(hotstuff.TimeoutMsg); ok && e.to == y.ID && t.View == y.VS.View() && !r.byz[e.to] &&
+				(r.isoVictim == 0 || (e.from != r.isoVictim && e.to != r.isoVictim)) {
+				r.deliverIdx(i)
+				continue
+			}
+			i++
+		}
+		r.step("timeout", y, obj{"type": "localtimeout", "view": int(y.VS.View())}, func() { y.FireTimeout() })
+	}
+}
+
 func (r *run) deliverIdx(i int) {
 	e := r.net[i]
 	r.net = append(r.net[:i], r.net[i+1:]...)
@@ -901,6 +976,17 @@ func protoCmd(args []string) error {
 			case c < pLose+pDup+pTimeout || len(r.net) == 0: // a view timer fires
 				hon := r.honest()
 				x := hon[rng.Intn(len(hon))]
+				if rng.Intn(3) == 0 {
+					// ... and so do the timers of the others in that view, one after the other
+					var same []*hx.Node
+					for _, y := range hon {
+						if y.VS.View() == x.VS.View() && y.ID != r.isoVictim {
+							same = append(same, y)
+						}
+					}
+					r.timeoutWave(same)
+					break
+				}
 				r.step("timeout", x, obj{"type": "localtimeout", "view": int(x.VS.View())}, func() { x.FireTimeout() })
 			case c < pLose+pDup+pTimeout+pByz && !silent:
 				r.adversary()
@@ -1026,6 +1112,14 @@ func (r *run) heal(views int, faultFree bool) {
 		}
 		if minView >= startView+views {
 			break
+		}
+		if r.rng.Intn(2) == 0 {
+			var ms []*hx.Node
+			for _, id := range r.live {
+				ms = append(ms, r.node(id))
+			}
+			r.timeoutWave(ms)
+			continue
 		}
 		for _, id := range r.live {
 			x := r.node(id)
